@@ -228,6 +228,17 @@ void harness_hosts(void)
 	c38_cleanup();
 }
 
+/* recorder substituted for evdns_cache_write in harness_merge (goto-instrument --replace-calls): the cache itself is
+ * decided in harness_cache on direct calls; reaching it through the lookup object costs symex its precision (the
+ * object is recovered from the sub-request with EVUTIL_UPCAST pointer arithmetic) */
+static int c38_cw_calls, c38_cw_ttl, c38_cw_name_ok; static const struct evutil_addrinfo *c38_cw_res;
+void c38_cache_write_rec(struct evdns_base *dns_base, char *nodename, struct evutil_addrinfo *res, int ttl)
+{
+	(void)dns_base;
+	c38_cw_calls++; c38_cw_ttl = ttl; c38_cw_res = res;
+	c38_cw_name_ok = nodename != NULL && nodename[0] == 'a' && nodename[1] == 0;
+}
+
 /* -------------------------------------------------------------------- merge */
 #ifndef C38_N4
 #define C38_N4 1          /* A addresses (0..2); -1: NXDOMAIN */
@@ -306,44 +317,67 @@ void harness_merge(void)
 		VP_ASSERT(c38_rec[0].err == 0, "C38: lookup must succeed when a wanted family has an answer");
 		c38_check_union(0, port, C38_E4, C38_E6);
 #if !C38_NOCACHE
-		{	/* the cache entry lives as long as its shortest-lived constituent */
-			struct evdns_cache *c = SPLAY_ROOT(&c38_base->cache_root); int want_ttl;
-			VP_ASSERT(c != NULL && vpe_event_is_pending(&c->ev_timeout), "C38: successful answer not cached with an expiry timer");
-			want_ttl = (C38_E4 && C38_E6) ? (c38_ttl4 < c38_ttl6 ? c38_ttl4 : c38_ttl6) : C38_E4 ? c38_ttl4 : c38_ttl6;
-			if (c) VP_ASSERT(c->ev_timeout.ev_timeout.tv_sec == want_ttl && c->ev_timeout.ev_timeout.tv_usec == 0, "C38: cache entry outlives the TTL of an answer it contains");
+		{	/* the answer is written to the cache once, under the name, with the TTL of its shortest-lived constituent */
+			int want_ttl = (C38_E4 && C38_E6) ? (c38_ttl4 < c38_ttl6 ? c38_ttl4 : c38_ttl6) : C38_E4 ? c38_ttl4 : c38_ttl6;
+			VP_ASSERT(c38_cw_calls == 1 && c38_cw_name_ok && c38_cw_res == c38_rec[0].head, "C38: successful answer not written to the cache (once, under its name, the list given to the caller)");
+			VP_ASSERT(c38_cw_ttl == want_ttl, "C38: cache entry outlives the TTL of an answer it contains");
 		}
 #else
-		VP_ASSERT(SPLAY_ROOT(&c38_base->cache_root) == NULL, "C38: EVDNS_BASE_NO_CACHE must not cache");
+		VP_ASSERT(c38_cw_calls == 0, "C38: EVDNS_BASE_NO_CACHE must not cache");
 #endif
 	} else {
 		VP_ASSERT(c38_rec[0].err != 0 && c38_rec[0].n == 0 && c38_rec[0].head == NULL, "C38: lookup without any answer must fail with an empty list");
-		VP_ASSERT(SPLAY_ROOT(&c38_base->cache_root) == NULL, "C38: failed lookup cached");
+		VP_ASSERT(c38_cw_calls == 0, "C38: failed lookup cached");
 	}
 	VP_WITNESS("C38 merge: answers delivered, list and cache checked");
 	c38_cleanup();
 }
 
 /* -------------------------------------------------------------------- cache */
+/* evdns_cache_write / evdns_cache_lookup / evdns_ttl_expired on direct calls: an answer list of C38_N4 IPv4 + C38_N6 IPv6
+ * addresses (solver-chosen) is cached under "a" with a solver-chosen TTL; lookups (any case of the name, another port,
+ * family hint) return equal addresses without touching the original list; the expiry timer carries the TTL; after
+ * expiry (and for other names) the lookup misses. */
 void harness_cache(void)
 {
-	int port = vp_u16(), port2 = vp_u16(); struct evdns_getaddrinfo_request *g; struct evdns_cache *c; int inflight;
+	int port2 = vp_u16(), ttl = (int)vp_range(1, 100000), i, k, r; struct evutil_addrinfo hints, open_hint, *list = NULL, *got = NULL; struct evdns_cache *c;
+	char name[] = "a", other[] = "b", upper[] = "A";
 	c38_setup();
-	c38_do_merge(port);
-	VP_ASSERT(c38_rec[0].err == 0, "harness: first lookup succeeds");
-	inflight = c38_base->global_requests_inflight;
-	/* within the TTL: answered from the cache, nothing sent */
-	g = c38_lookup(1, port2);
-	VP_ASSERT(g == NULL && c38_rec[1].calls == 1 && c38_rec[1].err == 0, "C38: lookup within the TTL must be answered from the cache, exactly once");
-	VP_ASSERT(c38_base->global_requests_inflight == inflight, "C38: cached name queried again");
-	c38_check_union(1, port2, C38_E4, C38_E6);
-	/* the TTL runs out */
+	c38_a4[0] = vp_u32(); c38_a4[1] = vp_u32();
+	for (i = 0; i < 2; i++) for (k = 0; k < 16; k++) c38_a6[i][k] = vp_u8();
+	c38_hints(&open_hint); open_hint.ai_family = PF_UNSPEC;
+	for (i = 0; i < 2; i++) if (i < C38_N4) { struct sockaddr_in sin; static const struct sockaddr_in z; sin = z; sin.sin_family = AF_INET; sin.sin_port = htons(7); sin.sin_addr.s_addr = c38_a4[i];
+		list = evutil_addrinfo_append_(list, evutil_new_addrinfo_((struct sockaddr *)&sin, sizeof(sin), &open_hint)); }
+	for (i = 0; i < 2; i++) if (i < C38_N6) { struct sockaddr_in6 s6; static const struct sockaddr_in6 z6; s6 = z6; s6.sin6_family = AF_INET6; s6.sin6_port = htons(7);
+		for (k = 0; k < 16; k++) s6.sin6_addr.s6_addr[k] = c38_a6[i][k];
+		list = evutil_addrinfo_append_(list, evutil_new_addrinfo_((struct sockaddr *)&s6, sizeof(s6), &open_hint)); }
+	c38_hints(&hints);
+	r = evdns_cache_lookup(c38_base, name, &hints, (ev_uint16_t)port2, &got);
+	VP_ASSERT(r == -1 && got == NULL, "C38: lookup in an empty cache must miss");
+	evdns_cache_write(c38_base, name, list, ttl);
 	c = SPLAY_ROOT(&c38_base->cache_root);
-	VP_ASSERT(c != NULL && vpe_event_is_pending(&c->ev_timeout), "C38: cache entry must carry its expiry timer");
+	VP_ASSERT(c != NULL && vpe_event_is_pending(&c->ev_timeout) && c->ev_timeout.ev_timeout.tv_sec == ttl && c->ev_timeout.ev_timeout.tv_usec == 0, "C38: cache entry must expire after exactly its TTL");
+	r = evdns_cache_lookup(c38_base, other, &hints, (ev_uint16_t)port2, &got);
+	VP_ASSERT(r == -1 && got == NULL, "C38: lookup of another name must miss");
+	r = evdns_cache_lookup(c38_base, upper, &hints, (ev_uint16_t)port2, &got);
+	if ((C38_FAMILY == 4 && C38_N4 == 0) || (C38_FAMILY == 6 && C38_N6 == 0)) VP_ASSERT(r == EVUTIL_EAI_ADDRFAMILY && got == NULL, "C38: cached name without address of the wanted family: EAI_ADDRFAMILY");
+	else {
+		VP_ASSERT(r == 0 && got != NULL, "C38: lookup within the TTL must hit (names are case-insensitive)");
+		c38_record(1, 0, got);
+		c38_check_union(1, port2, C38_FAMILY != 6 ? C38_N4 : 0, C38_FAMILY != 4 ? C38_N6 : 0);
+		evutil_freeaddrinfo(got);
+	}
+	/* the original list is still the caller's and untouched */
+	c38_record(0, 0, list);
+	{ int kk = 0; for (i = 0; i < 2; i++) if (i < C38_N4) for (k = 0; k < C38_PER; k++) { VP_ASSERT(c38_rec[0].fam[kk] == AF_INET && c38_rec[0].a4[kk] == c38_a4[i] && c38_rec[0].port[kk] == htons(7), "C38: caching must not modify the answer"); kk++; } }
+	evutil_freeaddrinfo(list);
+	/* the TTL runs out */
 	(void)event_del(&c->ev_timeout);
 	evdns_ttl_expired(-1, EV_TIMEOUT, c);
 	VP_ASSERT(SPLAY_ROOT(&c38_base->cache_root) == NULL, "C38: expired cache entry still present");
-	g = c38_lookup(2, port2);
-	VP_ASSERT(g != NULL && c38_rec[2].calls == 0 && c38_base->global_requests_inflight > inflight, "C38: after the TTL the name must be queried again (no stale answer)");
+	got = NULL;
+	r = evdns_cache_lookup(c38_base, name, &hints, (ev_uint16_t)port2, &got);
+	VP_ASSERT(r == -1 && got == NULL, "C38: lookup after the TTL must miss (no stale answer)");
 	VP_WITNESS("C38 cache: hit within the TTL, miss after expiry");
 	c38_cleanup();
 }
